@@ -308,6 +308,41 @@ def run(v, tier, seed, replay):
     s_fail = check_scenarios({t: (scen[t], s_impl[i]) for i, t in enumerate(tags)}) if s_impl else []
     s_mism = [(t, seqrun.first_mismatch(s_impl[i], s_model[i])) for i, t in enumerate(tags) if s_model and seqrun.first_mismatch(s_impl[i], s_model[i]) is not None] if s_impl else []
 
+    # random programs over the span API whose threads work on (nearly) full queues: omission only, and the model agrees
+    o_progs, o_fail, o_mism, o_hist = [], [], [], {}
+    if not replay and ok:
+        import proggen
+        import seqcheck
+        for i in range(24 if tier == "quick" else 1500):
+            g = proggen.make(r.fork(), "tree", {"overload": True, "threads": 1 + i % 3, "ops": 12 + r.below(30), "cancelable": i % 2 == 0, "cycle_density": 1 + i % 3,
+                                                "exits": False, "late_reporter": False, "no_reporter": False, "multi": i % 4 == 0})
+            o_progs.append(g.lines)
+        o_impl = seqrun.run_impl(o_progs)
+        o_model = seqrun.run_model(o_progs)
+        for ci, (lines, outs) in enumerate(zip(o_progs, o_impl)):
+            try:
+                f, tr = seqcheck.eval_case(lines, outs, ["no_panic", "omission_only"])
+            except Exception as ex:
+                f = [("transcript", "unparsable implementation transcript: %s" % ex)]
+            for nm, msg in f:
+                o_fail.append((ci, msg))
+            for o in outs:
+                if o.startswith("rep "):
+                    o_hist["reports"] = o_hist.get("reports", 0) + 1
+                    o_hist["records"] = o_hist.get("records", 0) + (0 if o.strip() == "rep -" else len(o.split()) - 1)
+            if o_model is not None:
+                k = seqrun.first_mismatch(outs, o_model[ci])
+                if k is not None:
+                    o_mism.append((ci, k))
+        for ci, msg in o_fail[:2]:
+            v.violation(msg, {"program": o_progs[ci], "stream": "overload", "implementation_transcript": [seqrun.strip_times(x)[:300] for x in o_impl[ci]][-30:]})
+        if not o_fail and o_mism and not fails and not s_fail:
+            ci, k = o_mism[0]
+            v.violation("overload program: model/implementation correspondence broken at %r: implementation %r, model %r"
+                        % (o_progs[ci][k] if k < len(o_progs[ci]) else "<end>", seqrun.strip_times(o_impl[ci][k])[:200] if k < len(o_impl[ci]) else None,
+                           seqrun.strip_times(o_model[ci][k])[:200] if k < len(o_model[ci]) else None),
+                        {"program": o_progs[ci], "line": k, "mismatching_programs": len(o_mism)}, found_input=False, tag="corr-overload")
+
     for ci, bad in fails[:3]:
         v.violation(bad, {"ops": cases[ci], "implementation": impl[ci], "model": model[ci] if model else None, "how_to_replay": "./check C09 --replay <this file>"})
     for tag, bad in s_fail[:2]:
@@ -337,6 +372,10 @@ def run(v, tier, seed, replay):
         "traces_validated_against_impl": (len(cases) if impl is not None else 0) + len(s_impl),
         "exhaustive": False, "correspondence_mismatches": len(mism) + len(s_mism), "oracle_failures": len(fails) + len(s_fail),
         "overload_scenarios": tags,
+        "overload_programs": {"programs": len(o_progs), "oracle_failures": len(o_fail), "correspondence_mismatches": len(o_mism), **o_hist,
+                              "rule": "random programs over the span API (1-3 threads, both configurations) in which queues are filled to within a few slots of their "
+                                      "capacity (or beyond) before and between the operations; oracle: nothing delivered twice, nothing of a cancelled / unfinished trace, no panic; "
+                                      "every program also runs through the Lean model (transcripts equal)"},
     }
     v.assumptions = ["Sender::drop at thread exit may lose parked commands when the ring is full (open finding D3; C09 limits itself to 'while the thread lives')",
                      "local limits (10240 spans per scope, 4096 scopes) are exercised in C07's focus programs and proved in C07_queue_at_limit / C07_scope_at_limit"]
